@@ -25,6 +25,31 @@ def gen_history(r, maxlen, universe):
         elif k == "dotSet": ops.append(["dotSet", v()] + [r.randrange(universe) for _ in range(r.randint(0, 8))])
     return ops
 
+def gen_skewed(r):
+    """operands of very different sizes: long vectors (20-300 coordinates) combined with short ones (1-3 coordinates,
+    mostly drawn from the long ones' coordinates, including their smallest / largest), in both orientations"""
+    universe = r.choice([40, 120, 400])
+    ops, live = [], 0
+    longs = []
+    for _ in range(r.randint(1, 3)):
+        k = r.randint(17, min(universe - 1, 300))
+        elems = r.sample(range(universe), k)
+        ops.append(["fromSet"] + elems); longs.append((live, sorted(elems))); live += 1
+    for _ in range(r.randint(2, 6)):
+        li, le = r.choice(longs)
+        pick = lambda: r.choice([le[0], le[-1], r.choice(le), r.choice(le), r.randrange(universe)])
+        if r.random() < .5: ops.append(["unit", pick()])
+        else: ops.append(["fromSet"] + [pick() for _ in range(r.randint(1, 3))])
+        live += 1
+    for _ in range(r.randint(3, 12)):
+        k = r.choice(["add", "add", "addAssign", "addAssign", "dot", "copy", "assign", "size"])
+        v = lambda: r.randrange(live)
+        if k == "add": ops.append(["add", v(), v()]); live += 1
+        elif k == "copy": ops.append(["copy", v()]); live += 1
+        elif k in ("addAssign", "assign", "dot"): ops.append([k, v(), v()])
+        else: ops.append([k, v()])
+    return ops
+
 def exhaustive_histories(length):
     """all histories of `length` ops over a tiny alphabet (universe {0,1,2}), after a fixed 2-vector prefix"""
     prefix = [["fromSet", 0, 2], ["unit", 1]]
@@ -91,6 +116,8 @@ def run(tier, replay=None):
         nrand = 3000 if tier == "quick" else 40000
         for i in range(nrand):
             cases["r%d" % i] = gen_history(r, 14 if i % 3 else 40, r.choice([4, 8, 64, 1000]))
+        for i in range(600 if tier == "quick" else 8000):
+            cases["k%d" % i] = gen_skewed(r)
         exl = 3 if tier == "quick" else 4
         for i, ops in enumerate(exhaustive_histories(exl)):
             cases["x%d" % i] = ops
